@@ -52,20 +52,20 @@ func (e refErr) String() string { return fmt.Sprintf("%s(%s@L%d)", e.Kind, e.Tar
 
 // refResolver is the independent model.
 type refResolver struct {
-	disk     *simfs.Disk
-	home     string
-	maxSize  int64
-	maxDepth int
-	calls    map[string][]simfs.CallRec // recorded outcomes per "op path", consumed in order
-	loaded   map[string]bool
-	order    []string
-	errs     []refErr
-	unsure   []refErr // errors whose presence the model does not assert (depth boundary)
-	unsureFiles map[string]bool
-	rootText string
-	steps    int
-	backup   map[string][]byte
-	unknownLines map[int]bool
+	disk            *simfs.Disk
+	home            string
+	maxSize         int64
+	maxDepth        int
+	calls           map[string][]simfs.CallRec // recorded outcomes per "op path", consumed in order
+	loaded          map[string]bool
+	order           []string
+	errs            []refErr
+	unsure          []refErr // errors whose presence the model does not assert (depth boundary)
+	unsureFiles     map[string]bool
+	rootText        string
+	steps           int
+	backup          map[string][]byte
+	unknownLines    map[int]bool
 	unknownErrLines map[int]bool
 }
 
